@@ -368,8 +368,10 @@ func verifHarness_C07_chunked_bodies() {
 
 // verifC07Reference runs the same model against net/http (native only: used by
 // the selftest to validate the model on seeded random instances).
-func verifC07Reference(full bool) (ok bool) {
-	m := verifC07Build(full)
+func verifC07Reference(full bool) (ok bool) { return verifC07ReferenceShape(full, -1) }
+
+func verifC07ReferenceShape(full bool, shape int) (ok bool) {
+	m := verifC07BuildShape(full, shape)
 	br := bufio.NewReader(bytes.NewReader(m.wire))
 	r, err := http.ReadRequest(br)
 	if err != nil {
@@ -436,4 +438,33 @@ func verifSelfC07Native() {
 	verifRandom = false
 	verifFailures = nil
 	fmtPrintSelfC07(n, skipped, failed)
+}
+
+// The model itself against the real net/http.ReadRequest, interpreted
+// symbolically: for ALL solver-chosen parts within the bounds the reference
+// parser extracts what the model says (so "nbio == model" above is
+// "nbio == net/http").
+func verifHarness_C07_model_is_nethttp_request_line() {
+	verifC07ReferenceShape(false, 0)
+	verifAssert(false, "witness")
+}
+
+func verifHarness_C07_model_is_nethttp_headers_and_persistence() {
+	verifC07ReferenceShape(false, 3)
+	verifAssert(false, "witness")
+}
+
+func verifHarness_C07_model_is_nethttp_content_length_bodies_T() {
+	verifC07ReferenceShape(false, 1)
+	verifAssert(false, "witness")
+}
+
+func verifHarness_C07_model_is_nethttp_chunked_bodies_T() {
+	verifC07ReferenceShape(false, 2)
+	verifAssert(false, "witness")
+}
+
+func verifHarness_C07_model_is_nethttp_trailer_declarations() {
+	verifC07ReferenceShape(false, 4)
+	verifAssert(false, "witness")
 }
